@@ -157,6 +157,22 @@ def generate(rnd, tier):
                     fl.append(f)
             op["faults"] = fl
         ops.append(op)
+    if rnd.random() < 0.03:
+        # default support (all scores) whose size is a power of two, a class of two or three scores in the middle of the
+        # other one, a random sampler: some pointwise interval spans all rates
+        total = rnd.choice([56, 56, 120])
+        n_small = rnd.choice([2, 3])
+        big_vals = rnd.sample(sorted({round(rnd.uniform(-3, 3), 3) for _ in range(4 * total)}), total - n_small)
+        small_vals = [round(rnd.uniform(-0.5, 0.5), 4) + 0.00005 for _ in range(n_small)]
+        flip = rnd.random() < 0.5
+        obj.update({"pos": small_vals if not flip else big_vals, "neg": big_vals if not flip else small_vals, "dtype": "float64",
+                    "nb_easy_pos": 0, "nb_easy_neg": 0})
+        for k_ in ("user_init", "container", "subclass", "via", "dtype_neg", "synth"):
+            obj.pop(k_, None)
+        ops = [{"op": "band", "fn": "roc_with_ci", "args": {"alpha": rnd.choice([0.05, 0.1, 0.3])},
+                "sampler": {"callable": "recording", "inner": {"sampling_method": "replacement", "stratified_sampling": rnd.choice([None, "by_label"])}},
+                "cfg": {"nb_samples": rnd.randint(4, 25), "bootstrap_method": rnd.choice(["quantile", "bca"])}, "arg_types": {}}
+               for _ in range(rnd.randint(1, 2))]
     if rnd.random() < 0.006:
         # a very fine user grid (more than a thousand support points) on a small data set, identity sampler
         lo_, n_ = round(rnd.uniform(-8, -4), 2), rnd.randint(1050, 1600)
